@@ -120,6 +120,9 @@ def run(name, checks):
     if rc != 0:
         print("patch does not apply:", out)
         return 2
+    evdir = os.path.join(VERIF, "evidence")
+    keep = tempfile.mkdtemp(prefix="evkeep_", dir="/tmp")  # evidence describes runs on the unchanged tree only
+    shutil.copytree(evdir, os.path.join(keep, "evidence"))
     try:
         for c in checks:
             t0 = time.time()
@@ -134,6 +137,9 @@ def run(name, checks):
     finally:
         sh(["git", "-C", REPO, "checkout", "--", "."])
         sh(["git", "-C", REPO, "clean", "-fdq"])
+        shutil.rmtree(evdir)
+        shutil.copytree(os.path.join(keep, "evidence"), evdir)
+        shutil.rmtree(keep)
     json.dump(meta, open(os.path.join(d, "meta.json"), "w"), indent=1)
     return 0
 
